@@ -36,6 +36,7 @@ type vpScan struct {
 	dead1            bool
 	fault            int // see VPH_scan
 	faultPos         int
+	bigTip           bool // vpScript: the newest commit has a longer message than the others
 }
 
 var errVPFault = errors.New("injected fault")
@@ -238,6 +239,9 @@ func vpScript(sc *vpScan, ncommits int, withTag bool, s0, s1 uint32) {
 			d += "parent " + vpHex(commits[i-1].oid) + "\n"
 		}
 		d += "author A <a@b> 1 +0000\ncommitter A <a@b> 1 +0000\n\nmsg\n"
+		if sc.bigTip && i == ncommits-1 {
+			d += "a longer message\n"
+		}
 		commits = append(commits, add(&vpObj{oid: vpMkOID('c', i), typ: "commit", data: []byte(d)}))
 	}
 	var tag *vpObj
